@@ -41,6 +41,7 @@ struct _thpool {
     pthread_mutex_t lock;
     pthread_cond_t notify;
     m_list_t *threads;              /* Always used behind a mutex */
+    size_t detached_alive;          /* Always used behind a mutex. Detached workers that did not leave the pool yet: they cannot be joined */
     m_queue_t *tasks;               /* Always used behind a mutex */
     atomic_uint running_tasks;
     m_thpool_flags flags;           /* Nobody writes this but us during thpool_new. No need to use an atomic */
@@ -86,6 +87,11 @@ static void *thpool_thread(void *thpool) {
         pool->running_tasks--;
     }
     
+    if (pool->flags & M_THPOOL_DETACHED) {
+        /* Nobody will join us: tell wait_pool() that this thread is leaving the pool for good */
+        pool->detached_alive--;
+        pthread_cond_broadcast(&(pool->notify));
+    }
     pthread_mutex_unlock(&(pool->lock));
     return NULL;
 }
@@ -99,7 +105,14 @@ static int wait_pool(m_thpool_t *pool, thpool_shutdown_t shutdown) {
     pool->shutdown = shutdown;
 
     /* Wake up all worker threads and unlock mutex */
-    ret = pthread_cond_broadcast(&pool->notify) + pthread_mutex_unlock(&pool->lock);
+    ret = pthread_cond_broadcast(&pool->notify);
+    if (ret == 0 && (pool->flags & M_THPOOL_DETACHED)) {
+        /* Detached workers cannot be joined: wait until the last one left the pool */
+        while (pool->detached_alive > 0) {
+            pthread_cond_wait(&pool->notify, &pool->lock);
+        }
+    }
+    ret += pthread_mutex_unlock(&pool->lock);
     if (ret == 0) {
         if (!(pool->flags & M_THPOOL_DETACHED)) {
             /* Join all worker threads */
@@ -130,10 +143,16 @@ static int add_threads(m_thpool_t *pool, int num) {
     int err = 0;
     for (int i = 0; i < num && err == 0; i++) {
         pthread_t *th = memhook._calloc(1, sizeof(pthread_t));
+        if (pool->flags & M_THPOOL_DETACHED) {
+            pool->detached_alive++;
+        }
         err = pthread_create(th, &tattr, thpool_thread, (void *) pool);
         if (err == 0) {
             m_list_insert(pool->threads, th);
         } else {
+            if (pool->flags & M_THPOOL_DETACHED) {
+                pool->detached_alive--;
+            }
             memhook._free(th);
         }
     }
